@@ -1,315 +1,333 @@
-(* C17: the hypothesis restores_effective of Proofs/AppStateLemmas.v discharged.
+(* C17: the hypothesis restores_effective of Proofs/AppStateLemmas.v discharged, for EVERY application.
 
-   The override the help resolver's restore records is keyed by the PATH of names, apply_cmd applies it to every
-   command reached under that path, find_path (eff) reads the first sibling with that name.  So the restore is
-   harmless as soon as all commands that share a path share their leniency (lenient_by_path), in particular when
-   sibling commands have distinct names at every level (siblings_distinct, a boolean on the application).
-   build_cmds rejects a second top-level command with a name already present; the sub-commands of a command are
-   all kept (build_cmd), so for a built application the condition is one on the sub-command names of the
-   configuration (cfg_subs_distinct).  Without it the statement is false of the model: Props/C17.v,
-   restores_effective_refuted_duplicate_subcommands. *)
+   The override the help resolver's restore records is keyed by the POSITION of the command object it was handed
+   (Model/AppState.v: help_pick / help_target_pos), apply_cmd applies it to the command at that position and to no
+   other, eff reads the command at that position.  A position holds one command, so recording the effective value
+   again changes nothing - whatever the names of the siblings are.  (The previous model keyed the override by the
+   path of NAMES and needed siblings_distinct: two sub-commands of one name shared the key.)
+
+   Second part: the position is the right one.  help_target (Model/Switches.v) is help_pick followed by the lenient
+   parse (help_target_is_pick); the position help_pick reports always exists, holds exactly the command that the
+   collections resolved (walk: the LAST non-anonymous sibling of that name, level by level; then, if any, the LAST
+   default sibling of the picked name), and the names along it are the reported path (help_pick_position). *)
 From Coq Require Import Lia.
 From Clikit Require Import Base.Prelude Base.Res Model.Conv Model.Format Model.Parser Model.Resolver Model.Run
      Model.Tokenizer Model.Switches Model.AppState Proofs.StrLemmas Proofs.AppStateLemmas.
 
-(* ---------- induction over command trees; the nested fixpoints as map / Forall ---------- *)
+(* ---------- induction over command trees ---------- *)
 Lemma bcmd_ind' (P : bcmd -> Prop) :
   (forall n al d an len f subs, Forall P subs -> P (BCmd n al d an len f subs)) -> forall c, P c.
 Proof.
   intros H. fix IH 1. intros [n al d an len f subs]. apply H.
   induction subs as [|s r IHr]; constructor; [apply IH|exact IHr].
 Qed.
-Lemma cmd_ind' (P : cmd -> Prop) :
-  (forall n al d an en len os ars subs, Forall P subs -> P (Cmd n al d an en len os ars subs)) -> forall c, P c.
-Proof.
-  intros H. fix IH 1. intros [n al d an en len os ars subs]. apply H.
-  induction subs as [|s r IHr]; constructor; [apply IH|exact IHr].
-Qed.
 
-Lemma apply_cmd_eq st pre n al d an len f subs :
-  apply_cmd st pre (BCmd n al d an len f subs) =
-  BCmd n al d an (match lookup st (pre ++ [n]) with Some b => b | None => len end) f
-       (map (apply_cmd st (pre ++ [n])) subs).
+Lemma apply_cmd_name st p c : b_name (apply_cmd st p c) = b_name c.
+Proof. destruct c. rewrite apply_cmd_eq. reflexivity. Qed.
+Lemma apply_cmd_aliases st p c : b_aliases (apply_cmd st p c) = b_aliases c.
+Proof. destruct c. rewrite apply_cmd_eq. reflexivity. Qed.
+Lemma apply_cmd_default st p c : b_default (apply_cmd st p c) = b_default c.
+Proof. destruct c. rewrite apply_cmd_eq. reflexivity. Qed.
+Lemma apply_cmd_anonymous st p c : b_anonymous (apply_cmd st p c) = b_anonymous c.
+Proof. destruct c. rewrite apply_cmd_eq. reflexivity. Qed.
+Lemma apply_cmd_fmt st p c : b_fmt (apply_cmd st p c) = b_fmt c.
+Proof. destruct c. rewrite apply_cmd_eq. reflexivity. Qed.
+Lemma apply_cmd_subs st p c : b_subs (apply_cmd st p c) = apply_forest st p 0 (b_subs c).
+Proof. destruct c. rewrite apply_cmd_eq. reflexivity. Qed.
+
+(* the leniency the command c at position p has in state st *)
+Definition efflen (st : overrides) (p : pos) (c : bcmd) : bool :=
+  match lookup st p with Some x => x | None => b_lenient c end.
+Lemma apply_cmd_lenient st p c : b_lenient (apply_cmd st p c) = efflen st p c.
+Proof. destruct c. rewrite apply_cmd_eq. reflexivity. Qed.
+
+(* ---------- the command at a position ---------- *)
+(* below c: r = [] is c itself *)
+Definition desc (c : bcmd) (r : pos) : option bcmd := match r with [] => Some c | _ => cmd_at (b_subs c) r end.
+Lemma cmd_at_cons cs j r : cmd_at cs (j :: r) = match nth_error cs j with None => None | Some c => desc c r end.
 Proof. reflexivity. Qed.
 
-Lemma cmd_eff_ok_eq st pre p b n al d an len f subs :
-  cmd_eff_ok st pre p b (BCmd n al d an len f subs) <->
-  (pre ++ [n] = p -> (match lookup st p with Some x => x | None => len end) = b) /\
-  Forall (cmd_eff_ok st (pre ++ [n]) p b) subs.
+Lemma nth_apply_forest st q : forall l i j,
+  nth_error (apply_forest st q i l) j = option_map (apply_cmd st (q ++ [i + j])) (nth_error l j).
 Proof.
-  cbn [cmd_eff_ok]. split; intros [H1 H2]; (split; [exact H1|]).
-  - induction subs as [|s r IH]; constructor; [apply H2|apply IH, H2].
-  - induction subs as [|s r IH]; [exact I|]. inversion H2; subst. split; [assumption|apply IH; assumption].
+  induction l as [|s r IH]; intros i [|j]; cbn [apply_forest nth_error option_map]; try reflexivity.
+  - now rewrite Nat.add_0_r.
+  - rewrite IH. now rewrite Nat.add_succ_r.
 Qed.
 
-Lemma apply_cmd_name st pre c : b_name (apply_cmd st pre c) = b_name c.
-Proof. destruct c. rewrite apply_cmd_eq. reflexivity. Qed.
-Lemma apply_cmd_subs st pre c : b_subs (apply_cmd st pre c) = map (apply_cmd st (pre ++ [b_name c])) (b_subs c).
-Proof. destruct c. rewrite apply_cmd_eq. reflexivity. Qed.
-
-(* the leniency a command at path p has in state st *)
-Definition efflen (st : overrides) (p : path) (c : bcmd) : bool :=
-  match lookup st p with Some x => x | None => b_lenient c end.
-Lemma apply_cmd_lenient st pre c : b_lenient (apply_cmd st pre c) = efflen st (pre ++ [b_name c]) c.
-Proof. destruct c. rewrite apply_cmd_eq. reflexivity. Qed.
-
-(* ---------- the commands at a path of names (all of them: siblings may share a name) ---------- *)
-Inductive at_path : list bcmd -> path -> bcmd -> Prop :=
-| ap_here cs c n : In c cs -> b_name c = n -> at_path cs [n] c
-| ap_down cs d n q c : In d cs -> b_name d = n -> at_path (b_subs d) q c -> at_path cs (n :: q) c.
-
-Lemma at_path_nil cs c : ~ at_path cs [] c.
-Proof. intros H. inversion H. Qed.
-Lemma at_path_incl cs cs' q c : (forall x, In x cs -> In x cs') -> at_path cs q c -> at_path cs' q c.
-Proof. intros Hi H. destruct H; [apply ap_here|eapply ap_down]; eauto. Qed.
-
-(* app_eff_ok says: every command at path p has effective leniency b *)
-Lemma cmd_eff_ok_at st p b : forall c pre,
-  (forall q c', pre ++ q = p -> at_path [c] q c' -> efflen st p c' = b) -> cmd_eff_ok st pre p b c.
+(* apply_state keeps the shape: the command at a position of the application in state st is the command at that
+   position of the application as built, with the override of that very position *)
+Lemma cmd_at_apply st : forall p q cs c',
+  cmd_at (apply_forest st q 0 cs) p = Some c' -> exists c, cmd_at cs p = Some c /\ c' = apply_cmd st (q ++ p) c.
 Proof.
-  induction c as [n al d an len f subs IH] using bcmd_ind'. intros pre H. rewrite cmd_eff_ok_eq. split.
-  - intros E. apply (H [n] (BCmd n al d an len f subs) E). apply ap_here; [now left|reflexivity].
-  - rewrite Forall_forall in IH |- *. intros s Hs. apply (IH s Hs). intros q c' E Hat.
-    apply (H (n :: q) c'); [rewrite <- E, <- app_assoc; reflexivity|].
-    eapply ap_down; [now left|reflexivity|]. cbn [b_subs].
-    eapply at_path_incl; [|exact Hat]. intros x [<-|[]]. exact Hs.
+  induction p as [|j r IH]; intros q cs c'; [discriminate|]. rewrite !cmd_at_cons, nth_apply_forest. cbn [Nat.add].
+  destruct (nth_error cs j) as [c|]; cbn [option_map]; [|discriminate]. destruct r as [|k r']; cbn [desc].
+  - intros E. injection E as <-. now exists c.
+  - rewrite apply_cmd_subs. intros E. apply IH in E as (c0 & Hc & ->). exists c0. split; [exact Hc|].
+    now rewrite <- app_assoc.
 Qed.
-Lemma forest_eff_ok_at st p b cs pre :
-  (forall q c, pre ++ q = p -> at_path cs q c -> efflen st p c = b) -> Forall (cmd_eff_ok st pre p b) cs.
+Lemma cmd_at_apply_conv st : forall p q cs c,
+  cmd_at cs p = Some c -> cmd_at (apply_forest st q 0 cs) p = Some (apply_cmd st (q ++ p) c).
 Proof.
-  intros H. rewrite Forall_forall. intros c Hin. apply cmd_eff_ok_at. intros q c' E Hat. apply (H q c' E).
-  eapply at_path_incl; [|exact Hat]. intros x [<-|[]]. exact Hin.
+  induction p as [|j r IH]; intros q cs c; [discriminate|]. rewrite !cmd_at_cons, nth_apply_forest. cbn [Nat.add].
+  destruct (nth_error cs j) as [c1|]; cbn [option_map]; [|discriminate]. destruct r as [|k r']; cbn [desc].
+  - intros E. injection E as <-. reflexivity.
+  - rewrite apply_cmd_subs. intros E. rewrite (IH _ _ _ E). now rewrite <- app_assoc.
 Qed.
 
-(* what eff reads is the leniency of ONE command at that path (the first sibling of that name, level by level) *)
-Lemma find_apply st pre n cs :
-  find (fun c => str_eqb (b_name c) n) (map (apply_cmd st pre) cs) =
-  option_map (apply_cmd st pre) (find (fun c => str_eqb (b_name c) n) cs).
+(* eff reads the command at that position and its own override *)
+Lemma eff_spec st a p : eff st a p = option_map (efflen st p) (cmd_at (ap_cmds a) p).
 Proof.
-  induction cs as [|c r IH]; cbn [map find option_map]; [reflexivity|]. rewrite apply_cmd_name.
-  destruct (str_eqb (b_name c) n); [reflexivity|exact IH].
-Qed.
-Lemma find_path_apply st : forall q cs pre c',
-  find_path (map (apply_cmd st pre) cs) q = Some c' ->
-  exists c, at_path cs q c /\ b_lenient c' = efflen st (pre ++ q) c.
-Proof.
-  induction q as [|n r IH]; intros cs pre c'; cbn [find_path]; [discriminate|].
-  rewrite find_apply. destruct (find (fun c => str_eqb (b_name c) n) cs) as [c0|] eqn:F; cbn [option_map]; [|discriminate].
-  apply find_some in F as [Hin Hn]. destruct (str_eqb_spec (b_name c0) n) as [Hn'|]; [|discriminate]. clear Hn.
-  destruct r as [|m r'].
-  - intros E. injection E as <-. exists c0. split; [now apply ap_here|]. rewrite apply_cmd_lenient, Hn'. reflexivity.
-  - rewrite apply_cmd_subs. intros E. apply IH in E as (c & Hat & Hl). exists c. split.
-    + eapply ap_down; eauto.
-    + rewrite Hl, Hn', <- app_assoc. reflexivity.
+  unfold eff, apply_state. cbn [ap_cmds]. destruct (cmd_at (ap_cmds a) p) as [c|] eqn:E; cbn [option_map].
+  - rewrite (cmd_at_apply_conv st p [] _ c E). cbn [option_map app]. now rewrite apply_cmd_lenient.
+  - destruct (cmd_at (apply_forest st [] 0 (ap_cmds a)) p) as [c'|] eqn:E'; [|reflexivity].
+    apply cmd_at_apply in E' as (c & Hc & _). congruence.
 Qed.
 
-(* ---------- the condition: commands that share a path share their leniency ---------- *)
-Definition lenient_by_path (a : application) : Prop :=
-  forall q c c', at_path (ap_cmds a) q c -> at_path (ap_cmds a) q c' -> b_lenient c = b_lenient c'.
-
-Lemma restores_effective_by_path st a toks : lenient_by_path a -> restores_effective st a toks.
+(* cmd_eff_ok asks for the value b at the one place below c, if any, whose position is p *)
+Lemma forest_eff_ok_nth st q p b : forall l i0,
+  (forall j s, nth_error l j = Some s -> cmd_eff_ok st (q ++ [i0 + j]) p b s) -> forest_eff_ok st q p b i0 l.
 Proof.
-  intros Hco. unfold restores_effective.
-  destruct (sm_action (run_summary false (apply_state st a) toks)) as [|p|k|p|p|k]; try exact I.
-  destruct (eff st a p) as [b|] eqn:E; [|exact I]. unfold eff in E.
-  destruct (find_path (ap_cmds (apply_state st a)) p) as [c'|] eqn:F; [|discriminate].
-  cbn [option_map] in E. injection E as <-. unfold apply_state in F. cbn [ap_cmds] in F.
-  apply find_path_apply in F as (c & Hat & Hl). cbn [app] in Hl.
-  apply forest_eff_ok_at. intros q c1 Eq Hat1. cbn [app] in Eq. subst q. rewrite Hl. unfold efflen.
-  destruct (lookup st p); [reflexivity|]. exact (Hco p c1 c Hat1 Hat).
+  induction l as [|s r IH]; intros i0 H; cbn [forest_eff_ok]; [exact I|]. split.
+  - specialize (H 0 s eq_refl). now rewrite Nat.add_0_r in H.
+  - apply IH. intros j s' Hs. specialize (H (S j) s' Hs). now rewrite Nat.add_succ_r in H.
+Qed.
+Lemma cmd_eff_ok_desc st p b : forall c q,
+  (forall r c0, desc c r = Some c0 -> q ++ r = p -> efflen st p c0 = b) -> cmd_eff_ok st q p b c.
+Proof.
+  induction c as [n al d an len f subs IH] using bcmd_ind'. intros q H. rewrite cmd_eff_ok_eq. split.
+  - intros E. apply (H [] (BCmd n al d an len f subs)); [reflexivity|now rewrite app_nil_r].
+  - apply forest_eff_ok_nth. cbn [Nat.add]. intros j s Hs. rewrite Forall_forall in IH.
+    apply (IH s (nth_error_In _ _ Hs)). intros r c0 Hd E.
+    apply (H (j :: r) c0); [|now rewrite <- E, <- app_assoc]. cbn [desc]. rewrite cmd_at_cons. cbn [b_subs]. now rewrite Hs.
 Qed.
 
-(* ---------- sibling commands with distinct names, at every level ---------- *)
-Fixpoint names_distinct (l : list str) : bool :=
-  match l with [] => true | x :: r => negb (existsb (str_eqb x) r) && names_distinct r end.
-Fixpoint cmd_distinct (c : bcmd) : bool :=
-  match c with
-  | BCmd _ _ _ _ _ _ subs =>
-    names_distinct (map b_name subs) &&
-    (fix go (l : list bcmd) : bool := match l with [] => true | s :: r => cmd_distinct s && go r end) subs
-  end.
-Definition forest_distinct (cs : list bcmd) : bool := names_distinct (map b_name cs) && forallb cmd_distinct cs.
-Definition siblings_distinct (a : application) : bool := forest_distinct (ap_cmds a).
-
-Lemma cmd_distinct_eq n al d an len f subs : cmd_distinct (BCmd n al d an len f subs) = forest_distinct subs.
+(* the command at position p has the effective leniency b: recording (p, b) is harmless *)
+Lemma app_eff_ok_at st a p c : cmd_at (ap_cmds a) p = Some c -> app_eff_ok st a p (efflen st p c).
 Proof.
-  reflexivity.
-Qed.
-Lemma existsb_str_false x l : existsb (str_eqb x) l = false <-> ~ In x l.
-Proof.
-  split.
-  - intros H Hin. assert (existsb (str_eqb x) l = true) as Ht by (apply existsb_exists; exists x; split; [exact Hin|apply str_eqb_refl]).
-    congruence.
-  - intros Hn. destruct (existsb (str_eqb x) l) eqn:E; [|reflexivity]. apply existsb_exists in E as (y & Hy & Ey).
-    destruct (str_eqb_spec x y) as [->|]; [contradiction|discriminate].
-Qed.
-Lemma names_distinct_NoDup l : names_distinct l = true <-> NoDup l.
-Proof.
-  induction l as [|x r IH]; cbn [names_distinct]; [split; [constructor|reflexivity]|].
-  rewrite andb_true_iff, negb_true_iff, existsb_str_false, IH. split.
-  - intros [H1 H2]. now constructor.
-  - intros H. inversion H; subst. now split.
-Qed.
-Lemma NoDup_map_inj_in {X Y} (f : X -> Y) l x y : NoDup (map f l) -> In x l -> In y l -> f x = f y -> x = y.
-Proof.
-  induction l as [|z r IH]; cbn [map]; intros Hnd Hx Hy E; [destruct Hx|]. inversion Hnd as [|? ? Hz Hr]; subst.
-  destruct Hx as [->|Hx], Hy as [->|Hy].
-  - reflexivity.
-  - exfalso. apply Hz. rewrite E. now apply in_map.
-  - exfalso. apply Hz. rewrite <- E. now apply in_map.
-  - now apply IH.
+  intros Hc. unfold app_eff_ok. apply forest_eff_ok_nth. cbn [Nat.add app]. intros j s Hs.
+  apply cmd_eff_ok_desc. intros r c0 Hd E. cbn [app] in E. subst p. rewrite cmd_at_cons, Hs in Hc. congruence.
 Qed.
 
-(* at most one command at each path *)
-Lemma at_path_functional : forall q cs c c',
-  forest_distinct cs = true -> at_path cs q c -> at_path cs q c' -> c = c'.
+(* ---------- the hypothesis of leniency_restored / runs_independent, discharged for every application ---------- *)
+Lemma restores_effective_holds st a toks : restores_effective st a toks.
 Proof.
-  induction q as [|n r IH]; intros cs c c' Hd H1 H2; [destruct (at_path_nil _ _ H1)|].
-  unfold forest_distinct in Hd. apply andb_prop in Hd as [Hnd Hsub]. apply names_distinct_NoDup in Hnd.
-  rewrite forallb_forall in Hsub.
-  inversion H1 as [? ? ? Hin1 Hn1|? d1 ? ? ? Hin1 Hn1 Hat1]; subst;
-    inversion H2 as [? ? ? Hin2 Hn2|? d2 ? ? ? Hin2 Hn2 Hat2]; subst.
-  - eapply NoDup_map_inj_in; eauto.
-  - destruct (at_path_nil _ _ Hat2).
-  - destruct (at_path_nil _ _ Hat1).
-  - assert (d1 = d2) as <- by (eapply NoDup_map_inj_in; eauto).
-    apply (IH (b_subs d1)); [|assumption|assumption].
-    specialize (Hsub d1 Hin1). destruct d1. rewrite cmd_distinct_eq in Hsub. exact Hsub.
+  unfold restores_effective. destruct (help_resolver_ran _); [|exact I].
+  destruct (help_target_pos (apply_state st a) toks) as [p|]; [|exact I]. rewrite eff_spec.
+  destruct (cmd_at (ap_cmds a) p) as [c|] eqn:E; cbn [option_map]; [|exact I]. now apply app_eff_ok_at.
 Qed.
-Lemma siblings_distinct_by_path a : siblings_distinct a = true -> lenient_by_path a.
-Proof. intros H q c c' H1 H2. now rewrite (at_path_functional q _ c c' H H1 H2). Qed.
 
-(* the hypothesis of leniency_restored / runs_independent, discharged *)
-Lemma restores_effective_holds st a toks : siblings_distinct a = true -> restores_effective st a toks.
-Proof. intros H. apply restores_effective_by_path, siblings_distinct_by_path, H. Qed.
-
-Lemma runs_independent_by_path a lines st : lenient_by_path a ->
+Lemma run_on_state_holds st a toks : apply_state (fst (run_on st a toks)) a = apply_state st a.
+Proof. apply run_on_state, restores_effective_holds. Qed.
+Lemma runs_independent_from a lines st :
   apply_state st a = apply_state [] a -> runs_on st a lines = map (fun l => snd (run_on [] a l)) lines.
-Proof. intros H Hst. apply runs_independent_lemma; [exact Hst|]. intros st' toks _. now apply restores_effective_by_path. Qed.
-Lemma runs_independent_from a lines st : siblings_distinct a = true ->
-  apply_state st a = apply_state [] a -> runs_on st a lines = map (fun l => snd (run_on [] a l)) lines.
-Proof. intros H. apply runs_independent_by_path, siblings_distinct_by_path, H. Qed.
-Lemma runs_independent_fresh a lines : siblings_distinct a = true ->
-  runs_on [] a lines = map (fun l => snd (run_on [] a l)) lines.
-Proof. intros H. now apply runs_independent_from. Qed.
-(* and the state after any history is again equivalent to the fresh one *)
-Lemma run_on_state_holds st a toks : siblings_distinct a = true ->
-  apply_state (fst (run_on st a toks)) a = apply_state st a.
-Proof. intros H. apply run_on_state, restores_effective_holds, H. Qed.
+Proof. intros Hst. apply runs_independent_lemma; [exact Hst|]. intros st' toks _. apply restores_effective_holds. Qed.
+Lemma runs_independent_fresh a lines : runs_on [] a lines = map (fun l => snd (run_on [] a l)) lines.
+Proof. now apply runs_independent_from. Qed.
 
-(* ---------- built applications ---------- *)
-Definition c_name (c : cmd) : str := let '(Cmd n _ _ _ _ _ _ _ _) := c in n.
-Definition c_enabled (c : cmd) : bool := let '(Cmd _ _ _ _ en _ _ _ _) := c in en.
-Definition c_subs (c : cmd) : list cmd := let '(Cmd _ _ _ _ _ _ _ _ s) := c in s.
+(* ====================== the position is that of the command the resolver was handed ====================== *)
 
-(* the enabled sub-commands of every enabled command have distinct names (disabled configurations are never built) *)
-Fixpoint cfg_cmd_distinct (c : cmd) : bool :=
-  match c with
-  | Cmd _ _ _ _ _ _ _ _ subs =>
-    names_distinct (map c_name (filter c_enabled subs)) &&
-    (fix go (l : list cmd) : bool :=
-       match l with [] => true | s :: r => (if c_enabled s then cfg_cmd_distinct s else true) && go r end) subs
+(* ---------- collections: under a name, the LAST sibling added under it ---------- *)
+Lemma last_named_spec keep m : forall l i, last_named keep m l = Some i ->
+  exists c, nth_error l i = Some c /\ keep c = true /\ b_name c = m.
+Proof.
+  induction l as [|c r IH]; intros i; cbn [last_named]; [discriminate|].
+  destruct (last_named keep m r) as [j|].
+  - intros E. injection E as <-. destruct (IH j eq_refl) as (c' & H1 & H2 & H3). exists c'. now repeat split.
+  - destruct (keep c) eqn:Hk; cbn [andb]; [|discriminate]. destruct (str_eqb_spec (b_name c) m) as [Hn|]; [|discriminate].
+    intros E. injection E as <-. exists c. now repeat split.
+Qed.
+(* ... and no later kept sibling has that name *)
+Lemma last_named_last keep m : forall l i, last_named keep m l = Some i ->
+  forall j c, i < j -> nth_error l j = Some c -> keep c && str_eqb (b_name c) m = false.
+Proof.
+  induction l as [|c r IH]; intros i; cbn [last_named]; [discriminate|].
+  destruct (last_named keep m r) as [k|] eqn:E.
+  - intros E'. injection E' as <-. intros [|j] c' Hj; [lia|]. cbn [nth_error]. apply (IH k eq_refl). lia.
+  - destruct (keep c && str_eqb (b_name c) m); [|discriminate]. intros E'. injection E' as <-.
+    intros [|j] c' Hj; [lia|]. cbn [nth_error]. clear IH Hj. revert j. induction r as [|c1 r1 IHr]; intros j; [destruct j; discriminate|].
+    cbn [last_named] in E. destruct (last_named keep m r1); [discriminate|].
+    destruct (keep c1 && str_eqb (b_name c1) m) eqn:E1; [discriminate|]. destruct j as [|j]; cbn [nth_error].
+    + intros H. injection H as <-. exact E1.
+    + now apply IHr.
+Qed.
+
+Lemma coll_cmds_fold keep m : forall l c0,
+  sget m (cc_cmds (fold_left coll_add (filter keep l) c0)) =
+  match last_named keep m l with Some i => nth_error l i | None => sget m (cc_cmds c0) end.
+Proof.
+  induction l as [|c r IH]; intros c0; cbn [filter fold_left last_named]; [reflexivity|].
+  destruct (keep c); cbn [fold_left andb]; rewrite IH; destruct (last_named keep m r); try reflexivity.
+  unfold coll_add. cbn [cc_cmds]. unfold sget, sset. rewrite sget_sset, (str_eqb_sym m). destruct (str_eqb (b_name c) m); reflexivity.
+Qed.
+Lemma coll_cmds_get keep m l b : sget m (cc_cmds (coll_of (filter keep l))) = Some b ->
+  exists i, last_named keep (b_name b) l = Some i /\ nth_error l i = Some b.
+Proof.
+  unfold coll_of. rewrite coll_cmds_fold. destruct (last_named keep m l) as [i|] eqn:E; [|discriminate].
+  intros Hn. destruct (last_named_spec _ _ _ _ E) as (c & Hc & _ & Hm). assert (c = b) as -> by congruence.
+  exists i. now rewrite Hm.
+Qed.
+(* by name or through the alias index: what a collection returns is the last sibling filed under the name it has *)
+Lemma coll_get_pos keep l n b : coll_get (coll_of (filter keep l)) n = Ok b ->
+  exists i, last_named keep (b_name b) l = Some i /\ nth_error l i = Some b.
+Proof.
+  unfold coll_get. destruct (sget n (cc_cmds _)) as [b0|] eqn:E.
+  - intros H. injection H as <-. eapply coll_cmds_get, E.
+  - destruct (sget n (cc_alias _)) as [m|]; [|discriminate]. destruct (sget m (cc_cmds _)) as [b0|] eqn:E'; [|discriminate].
+    intros H. injection H as <-. eapply coll_cmds_get, E'.
+Qed.
+
+(* the keys of a collection are distinct (a dict) *)
+Lemma sset_keys_some {V} k (v w : V) d : sget k d = Some w -> map fst (sset k v d) = map fst d.
+Proof.
+  unfold sget, sset. induction d as [|[k' v'] r IH]; cbn [aget aset map fst]; [discriminate|].
+  destruct (str_eqb k k'); [reflexivity|]. intros H. cbn [map fst]. now rewrite IH.
+Qed.
+Lemma NoDup_snoc {X} (l : list X) k : NoDup l -> ~ In k l -> NoDup (l ++ [k]).
+Proof.
+  induction l as [|x r IH]; cbn [app]; intros Hn Hk; [constructor; [intros []|constructor]|].
+  inversion Hn as [|? ? Hx Hr]; subst. constructor.
+  - rewrite in_app_iff. intros [H|[H|[]]]; [contradiction|]. apply Hk. now left.
+  - apply IH; [assumption|]. intros H. apply Hk. now right.
+Qed.
+Lemma sset_nodup {V} k (v : V) d : NoDup (map fst d) -> NoDup (map fst (sset k v d)).
+Proof.
+  intros H. destruct (sget k d) as [w|] eqn:E.
+  - now rewrite (sset_keys_some k v w d E).
+  - unfold sget, sset in *. rewrite (sset_absent k v d E), map_app. cbn [map fst]. apply NoDup_snoc; [exact H|].
+    now apply sget_none_notin.
+Qed.
+Lemma coll_fold_nodup : forall l c0, NoDup (map fst (cc_cmds c0)) -> NoDup (map fst (cc_cmds (fold_left coll_add l c0))).
+Proof. induction l as [|c r IH]; intros c0 H; cbn [fold_left]; [exact H|]. apply IH. unfold coll_add. cbn [cc_cmds]. now apply sset_nodup. Qed.
+Lemma sget_of_in {V} n (v : V) d : NoDup (map fst d) -> In (n, v) d -> sget n d = Some v.
+Proof.
+  unfold sget. induction d as [|[k w] r IH]; cbn [map fst aget]; intros Hn Hin; [destruct Hin|].
+  inversion Hn as [|? ? Hk Hr]; subst. destruct Hin as [E|Hin].
+  - injection E as -> ->. now rewrite str_eqb_refl.
+  - destruct (str_eqb_spec n k) as [->|]; [|now apply IH]. exfalso. apply Hk. change k with (fst (k, v)). now apply in_map.
+Qed.
+Lemma defaults_of_pos l dc : In dc (defaults_of l) ->
+  exists i, last_named b_default (b_name dc) l = Some i /\ nth_error l i = Some dc.
+Proof.
+  unfold defaults_of. intros H. apply in_map_iff in H as ([m b] & E & Hin). cbn [snd] in E. subst b.
+  apply (coll_cmds_get b_default m). apply sget_of_in; [|exact Hin]. unfold coll_of. apply coll_fold_nodup. constructor.
+Qed.
+
+(* the default command picked is one of the collection *)
+Lemma pick_default_in toks : forall ds first dc r, pick_default ds toks first = Ok (Some (dc, r)) ->
+  In dc ds \/ exists k, first = Some (dc, k).
+Proof.
+  induction ds as [|d r0 IH]; intros first dc r; cbn [pick_default].
+  - destruct first as [[b k]|]; [|discriminate]. intros E. injection E as <- _. right. now exists k.
+  - destruct (parse (b_fmt d) (b_lenient d) toks) as [x|k].
+    + intros E. injection E as <- _. left. now left.
+    + destruct k; try discriminate. intros E. apply IH in E as [Hin|[k Hk]]; [left; now right|].
+      destruct first as [[b0 k0]|]; [right; now exists k|]. injection Hk as <- _. left. now left.
+Qed.
+
+(* ---------- the names along a position ---------- *)
+Fixpoint names_at (cs : list bcmd) (p : pos) : option path :=
+  match p with
+  | [] => Some []
+  | i :: r => match nth_error cs i with None => None | Some c => option_map (cons (b_name c)) (names_at (b_subs c) r) end
   end.
-Definition cfg_enabled_distinct (l : list cmd) : bool :=
-  forallb (fun s => if c_enabled s then cfg_cmd_distinct s else true) l.
-Definition cfg_subs_distinct (cfg : appcfg) : bool := cfg_enabled_distinct (ac_cmds cfg).
-
-Lemma cfg_cmd_distinct_eq n al d an en len os ars subs :
-  cfg_cmd_distinct (Cmd n al d an en len os ars subs) =
-  names_distinct (map c_name (filter c_enabled subs)) && cfg_enabled_distinct subs.
+Lemma locate_named_names : forall q cs p, locate_named cs q = Some p -> names_at cs p = Some q.
 Proof.
-  reflexivity.
+  induction q as [|n r IH]; intros cs p; cbn [locate_named].
+  - intros E. injection E as <-. reflexivity.
+  - destruct (last_named is_named n cs) as [i|] eqn:El; [|discriminate].
+    destruct (last_named_spec _ _ _ _ El) as (c & Hc & _ & Hn). rewrite Hc.
+    destruct (locate_named (b_subs c) r) as [p'|] eqn:E'; cbn [option_map]; [|discriminate].
+    intros E. injection E as <-. cbn [names_at]. rewrite Hc, (IH _ _ E'), Hn. reflexivity.
+Qed.
+(* one level further down *)
+Lemma cmd_at_snoc : forall p cs c i, cmd_at cs p = Some c -> cmd_at cs (p ++ [i]) = nth_error (b_subs c) i.
+Proof.
+  induction p as [|j r IH]; intros cs c i; [discriminate|]. cbn [app]. rewrite !cmd_at_cons.
+  destruct (nth_error cs j) as [c1|]; [|discriminate]. destruct r as [|k r']; cbn [desc app].
+  - intros E. injection E as <-. rewrite cmd_at_cons. destruct (nth_error (b_subs c1) i); reflexivity.
+  - intros E. exact (IH _ _ i E).
+Qed.
+Lemma names_at_snoc : forall p cs q c i d, names_at cs p = Some q -> cmd_at cs p = Some c -> nth_error (b_subs c) i = Some d ->
+  names_at cs (p ++ [i]) = Some (q ++ [b_name d]).
+Proof.
+  induction p as [|j r IH]; intros cs q c i d; [discriminate|]. cbn [app names_at]. rewrite cmd_at_cons.
+  destruct (nth_error cs j) as [c1|]; [|discriminate].
+  destruct (names_at (b_subs c1) r) as [q'|] eqn:Eq; cbn [option_map]; [|discriminate]. intros E. injection E as <-.
+  destruct r as [|k r']; cbn [desc app].
+  - intros E Hd. injection E as <-. cbn [names_at] in *. injection Eq as <-. rewrite Hd. reflexivity.
+  - intros E Hd. change (k :: r' ++ [i]) with ((k :: r') ++ [i]). rewrite (IH _ _ _ _ _ Eq E Hd). reflexivity.
 Qed.
 
-Fixpoint build_subs (f : fmt) (l : list cmd) : res (list bcmd) :=
-  match l with
-  | [] => Ok []
-  | s :: r => if c_enabled s then (do b <- build_cmd (Some f) s; do bs <- build_subs f r; Ok (b :: bs))
-              else build_subs f r
-  end.
-Lemma build_cmd_eq base n al d an en len os ars subs :
-  build_cmd base (Cmd n al d an en len os ars subs) =
-  (do f <- format_of_elements (cmd_elements n al an os ars) base;
-   do bs <- build_subs f subs;
-   Ok (BCmd n al d an len f bs)).
+(* ---------- walk: the command reached sits at the position located along the recorded names ---------- *)
+Definition cur_path (cur : option (bcmd * list str)) : list str := match cur with Some (_, p) => p | None => [] end.
+Lemma walk_locate : forall names cs cur b pth, walk (named_of cs) cur names = Ok (Some (b, pth)) ->
+  cur = Some (b, pth) \/
+  exists q p, pth = cur_path cur ++ q /\ locate_named cs q = Some p /\ cmd_at cs p = Some b.
 Proof.
-  cbn [build_cmd]. destruct (format_of_elements (cmd_elements n al an os ars) base) as [f|k]; cbn [bind]; [|reflexivity].
-  match goal with |- bind ?x _ = bind ?y _ => assert (x = y) as -> end; [|reflexivity].
-  induction subs as [|s r IH]; cbn [build_subs]; [reflexivity|].
-  destruct s as [n' al' d' an' en' len' os' ars' subs']. cbn [c_enabled]. rewrite IH. reflexivity.
+  induction names as [|n r IH]; intros cs cur b pth; cbn [walk].
+  - intros E. injection E as ->. now left.
+  - destruct (coll_contains (named_of cs) n); cbn [negb]; [|intros E; injection E as ->; now left].
+    destruct (coll_get (named_of cs) n) as [b1|k] eqn:Eg; cbn [bind]; [|discriminate].
+    unfold named_of in Eg. apply coll_get_pos in Eg as (i & Hi & Hn). fold (cur_path cur). intros E. right.
+    apply IH in E as [E|(q & p & -> & Hq & Hp)].
+    + injection E as <- <-. exists [b_name b1], [i]. repeat split.
+      * cbn [locate_named]. unfold is_named. rewrite Hi, Hn. reflexivity.
+      * rewrite cmd_at_cons, Hn. reflexivity.
+    + cbn [cur_path]. exists (b_name b1 :: q), (i :: p). repeat split.
+      * now rewrite <- app_assoc.
+      * cbn [locate_named]. unfold is_named. rewrite Hi, Hn, Hq. reflexivity.
+      * rewrite cmd_at_cons, Hn. destruct p; [discriminate|exact Hp].
 Qed.
 
-Lemma build_cmd_distinct : forall c base b, build_cmd base c = Ok b ->
-  b_name b = c_name c /\ (cfg_cmd_distinct c = true -> cmd_distinct b = true).
+(* ---------- help_target is help_pick followed by the lenient parse ---------- *)
+Definition strip_help (toks : list str) : list str :=
+  match toks with t :: r => if str_eqb t S_help then r else toks | [] => [] end.
+Lemma help_target_is_pick a toks :
+  help_target a toks =
+  (do t <- help_pick a toks; let '(c, pth, _) := t in do x <- parse (b_fmt c) true (strip_help toks); Ok pth).
 Proof.
-  induction c as [n al d an en len os ars subs IH] using cmd_ind'. intros base b. rewrite build_cmd_eq.
-  destruct (format_of_elements (cmd_elements n al an os ars) base) as [f|k]; cbn [bind]; [|discriminate].
-  destruct (build_subs f subs) as [bs|k] eqn:Hb; cbn [bind]; [|discriminate]. intros E. injection E as <-.
-  split; [reflexivity|]. rewrite cfg_cmd_distinct_eq, cmd_distinct_eq. unfold forest_distinct.
-  assert (map b_name bs = map c_name (filter c_enabled subs) /\
-          (cfg_enabled_distinct subs = true -> forallb cmd_distinct bs = true)) as [Hn Hs].
-  { clear -IH Hb. revert bs Hb. induction subs as [|s r IHr]; intros bs Hb; cbn [build_subs] in Hb.
-    - injection Hb as <-. split; reflexivity.
-    - inversion IH as [|? ? Hs Hr]; subst. specialize (IHr Hr). unfold cfg_enabled_distinct. cbn [filter forallb].
-      destruct (c_enabled s).
-      + destruct (build_cmd (Some f) s) as [b|k] eqn:Eb; cbn [bind] in Hb; [|discriminate].
-        destruct (build_subs f r) as [bs'|k] eqn:Ebs; cbn [bind] in Hb; [|discriminate]. injection Hb as <-.
-        destruct (Hs _ _ Eb) as [Hname Hd]. destruct (IHr _ eq_refl) as [Hnames Hds]. cbn [map forallb]. split.
-        * now rewrite Hname, Hnames.
-        * intros H. apply andb_prop in H as [H1 H2]. rewrite (Hd H1). exact (Hds H2).
-      + destruct (IHr _ Hb) as [Hnames Hds]. split; [exact Hnames|]. cbn [andb]. exact Hds. }
-  rewrite Hn. intros H. apply andb_prop in H as [H1 H2]. rewrite H1. exact (Hs H2).
+  unfold help_target, help_pick. fold (strip_help toks).
+  destruct (walk (named_of (ap_cmds a)) None (leading (strip_help toks))) as [[[b pth]|]|k]; cbn [bind]; [| |reflexivity].
+  - destruct (pick_default (defaults_of (b_subs b)) (strip_help toks) None) as [[[dc r]|]|k]; reflexivity.
+  - destruct (leading (strip_help toks)); [|reflexivity].
+    destruct (pick_default (defaults_of (ap_cmds a)) (strip_help toks) None) as [[[dc r]|]|k]; reflexivity.
 Qed.
 
-(* the top level: build_cmds itself refuses a name already present *)
-Lemma build_cmds_distinct g : forall l seen bs, build_cmds g seen l = Ok bs ->
-  names_distinct (map b_name bs) = true /\ (forall y, In y (map b_name bs) -> ~ In y seen) /\
-  (cfg_enabled_distinct l = true -> forallb cmd_distinct bs = true).
+(* the position help_pick reports exists, holds exactly the command picked, and its names are the reported path *)
+Lemma help_pick_position a toks c pth o : help_pick a toks = Ok (c, pth, o) ->
+  exists p, o = Some p /\ cmd_at (ap_cmds a) p = Some c /\ names_at (ap_cmds a) p = Some pth.
 Proof.
-  induction l as [|c r IH]; intros seen bs; cbn [build_cmds].
-  - intros E. injection E as <-. repeat split. intros y [].
-  - destruct c as [n al d an en len os ars subs]. unfold cfg_enabled_distinct. cbn [forallb c_enabled].
-    destruct en; cbn [negb].
-    + destruct n as [|ch n']; [discriminate|]. set (n := ch :: n') in *.
-      destruct (existsb (str_eqb n) seen) eqn:Hseen; [discriminate|].
-      destruct (build_cmd (Some g) (Cmd n al d an true len os ars subs)) as [b|k] eqn:Eb; cbn [bind]; [|discriminate].
-      match goal with |- context [build_cmds g ?sn r] =>
-        destruct (build_cmds g sn r) as [bs'|k] eqn:Ebs; cbn [bind]; [|discriminate] end.
-      intros E. injection E as <-. destruct (build_cmd_distinct _ _ _ Eb) as [Hname Hd]. cbn [c_name] in Hname.
-      destruct (IH _ _ Ebs) as (Hnd & Hout & Hds). cbn [map names_distinct forallb]. rewrite Hname. repeat split.
-      * rewrite Hnd, andb_true_r, negb_true_iff. apply existsb_str_false. intros Hin. apply (Hout _ Hin). now left.
-      * intros y [<-|Hy]; [now apply existsb_str_false|].
-        intros Hin. apply (Hout _ Hy). right. apply in_or_app. now right.
-      * intros H. apply andb_prop in H as [H1 H2]. rewrite (Hd H1). exact (Hds H2).
-    + intros E. destruct (IH _ _ E) as (Hnd & Hout & Hds). repeat split; assumption.
+  unfold help_pick. fold (strip_help toks).
+  destruct (walk (named_of (ap_cmds a)) None (leading (strip_help toks))) as [[[b pb]|]|k] eqn:Ew; cbn [bind]; [| |discriminate].
+  - apply walk_locate in Ew as [Ew|(q & p & -> & Hq & Hp)]; [discriminate|]. cbn [cur_path app].
+    destruct (pick_default (defaults_of (b_subs b)) (strip_help toks) None) as [[[dc r]|]|k] eqn:Ed; cbn [bind]; [| |discriminate].
+    + intros E. injection E as <- <- <-. apply pick_default_in in Ed as [Hin|[k Hk]]; [|discriminate].
+      apply defaults_of_pos in Hin as (i & Hi & Hn). rewrite Hq, Hi. exists (p ++ [i]). repeat split.
+      * now rewrite (cmd_at_snoc _ _ _ i Hp).
+      * apply (names_at_snoc p _ q b i dc); [now apply locate_named_names|exact Hp|exact Hn].
+    + intros E. injection E as <- <- <-. exists p. repeat split; [exact Hq|exact Hp|now apply locate_named_names].
+  - destruct (leading (strip_help toks)); [|discriminate].
+    destruct (pick_default (defaults_of (ap_cmds a)) (strip_help toks) None) as [[[dc r]|]|k] eqn:Ed; cbn [bind]; [| |discriminate]; [|discriminate].
+    intros E. injection E as <- <- <-. apply pick_default_in in Ed as [Hin|[k Hk]]; [|discriminate].
+    apply defaults_of_pos in Hin as (i & Hi & Hn). rewrite Hi. exists [i]. cbn [option_map]. repeat split.
+    + rewrite cmd_at_cons, Hn. reflexivity.
+    + cbn [names_at]. rewrite Hn. reflexivity.
 Qed.
 
-Lemma build_app_siblings_distinct cfg a : build_app cfg = Ok a -> cfg_subs_distinct cfg = true -> siblings_distinct a = true.
+(* so whenever the help resolver reports a page (or fails in its lenient parse), the override written is on the command
+   it was handed, and the value is the leniency that command had when the run began: was_lenient *)
+Lemma help_target_has_position a toks pth : help_target a toks = Ok pth ->
+  exists c p, help_pick a toks = Ok (c, pth, Some p) /\ help_target_pos a toks = Some p /\
+              cmd_at (ap_cmds a) p = Some c /\ names_at (ap_cmds a) p = Some pth.
 Proof.
-  unfold build_app. destruct (format_of_elements _ None) as [g|k]; cbn [bind]; [|discriminate].
-  destruct (build_cmds g [] (ac_cmds cfg)) as [cs|k] eqn:E; cbn [bind]; [|discriminate].
-  intros Ea. injection Ea as <-. intros Hc. unfold siblings_distinct, forest_distinct. cbn [ap_cmds].
-  destruct (build_cmds_distinct _ _ _ _ E) as (Hnd & _ & Hds). rewrite Hnd. exact (Hds Hc).
+  rewrite help_target_is_pick. unfold help_target_pos. destruct (help_pick a toks) as [[[c q] o]|k] eqn:E; cbn [bind]; [|discriminate].
+  destruct (parse (b_fmt c) true (strip_help toks)); cbn [bind]; [|discriminate]. intros H. injection H as <-.
+  destruct (help_pick_position _ _ _ _ _ E) as (p & -> & Hc & Hn). now exists c, p.
 Qed.
-
-(* a configuration without sub-sub-structure to check: no command has sub-commands *)
-Lemma cfg_flat_distinct cfg : forallb (fun c => match c_subs c with [] => true | _ => false end) (ac_cmds cfg) = true ->
-  cfg_subs_distinct cfg = true.
+Lemma run_on_records st a toks c pth o : help_pick (apply_state st a) toks = Ok (c, pth, o) ->
+  exists p, help_target_pos (apply_state st a) toks = Some p /\ eff st a p = Some (b_lenient c).
 Proof.
-  unfold cfg_subs_distinct, cfg_enabled_distinct. intros H. rewrite forallb_forall in H |- *. intros c Hc.
-  specialize (H c Hc). destruct c as [n al d an en len os ars subs]. cbn [c_subs c_enabled] in *.
-  destruct subs; [|discriminate]. destruct en; reflexivity.
+  intros E. unfold help_target_pos. rewrite E. destruct (help_pick_position _ _ _ _ _ E) as (p & -> & Hc & _).
+  exists p. split; [reflexivity|]. unfold eff. now rewrite Hc.
 Qed.
-
-(* ---------- every built application ---------- *)
-Lemma restores_effective_built cfg a st toks :
-  build_app cfg = Ok a -> cfg_subs_distinct cfg = true -> restores_effective st a toks.
-Proof. intros Hb Hc. apply restores_effective_holds. eapply build_app_siblings_distinct; eauto. Qed.
-Lemma runs_independent_built_from cfg a lines st :
-  build_app cfg = Ok a -> cfg_subs_distinct cfg = true -> apply_state st a = apply_state [] a ->
-  runs_on st a lines = map (fun l => snd (run_on [] a l)) lines.
-Proof. intros Hb Hc. apply runs_independent_from. eapply build_app_siblings_distinct; eauto. Qed.
-Lemma runs_independent_built cfg a lines :
-  build_app cfg = Ok a -> cfg_subs_distinct cfg = true ->
-  runs_on [] a lines = map (fun l => snd (run_on [] a l)) lines.
-Proof. intros Hb Hc. now apply (runs_independent_built_from cfg). Qed.
